@@ -1403,6 +1403,25 @@ fn check_malformed(c: &Case) -> Outcome {
     if !r.trace.is_empty() {
         return Outcome::fail(format!("{}: a command ran: {:?}", head(), r.trace));
     }
+    // the same rejected invocation carrying a redirection: "no effect" includes the redirection
+    // being undone (also for `exec`, whose redirections persist only when it is accepted)
+    if r.snap("after").is_some() {
+        let rr = observe_script(&script_with(c, &format!("{cmd} 7>/dev/null")));
+        if let Some(p) = &rr.panic {
+            return Outcome::fail(format!("{} with a redirection: panic: {p}", head()));
+        }
+        match (rr.snap("after"), rr.proc("after"), rr.proc("before")) {
+            (Some(after), Some(x), Some(y)) => {
+                if after.status == 0 {
+                    return Outcome::fail(format!("{} with `7>/dev/null`: exit status 0", head()));
+                }
+                if let Some(d) = proc_diff(x, y) {
+                    return Outcome::fail(format!("{} with `7>/dev/null`: the rejected invocation left its redirection behind (after vs before): {d}", head()));
+                }
+            }
+            _ => return Outcome::fail(format!("{} with `7>/dev/null`: the shell exited although it goes on without the redirection; stderr {:?}", head(), first_line(&rr.stderr))),
+        }
+    }
     Outcome::pass(documents_options)
 }
 
